@@ -226,7 +226,13 @@ def check_c02(world):
                 continue
             eph = s.get('eph', 0)
             pubs_here = {p[:2] for _, _, p in got if p is not None}
-            for owner, mid in pubs_here:
+            if len({m for _, m in pubs_here}) == 1 and len(pubs_here) > 1:
+                # one id in this call, published by two incarnations of the source (parts of the old one's set were
+                # still buffered when the restarted one published under the id its consumers asked for): the id is
+                # delivered once - the same narrow relaxation as C01's, counted
+                stats['c02_cross_incarnation_sets'] += 1
+                pubs_here = {max(pubs_here)}
+            for owner, mid in sorted(pubs_here):
                 stats['c02_deliveries'] += 1
                 if not eph:
                     key = (nid, inc, up)
@@ -516,6 +522,33 @@ def check_c04(world):
                              f'{pkey} published {n_pub} frames while its synchronized consumer {ckey} sent no request '
                              f'for {(b - a) / 1e9:.1f}s (window {(hi - a) / 1e9:.1f}s, requests still dequeued {n_deq}, '
                              f'required={required})', None, a, shape=sc['shape'], required=required))
+            # "each publisher feeding it": the publishers further upstream, which reach c through synchronized relays,
+            # are held back as well - every relay in between holds a bounded number of frames (one it processes, one
+            # it waits to send, those answering requests still in flight)
+            depth = 0
+            cur = pnid
+            lo = a
+            while True:
+                ups = [s2['from'] for s2 in sc['nodes'][cur].get('sources') or [] if not s2.get('eph')]
+                if len(ups) != 1 or sc['nodes'][ups[0]].get('outputs_balance'):
+                    break
+                child_key = world.procs[cur][-1].key
+                cur = ups[0]
+                depth += 1
+                ukey = world.procs[cur][-1].key
+                # the relay holds its publisher back only once that publisher knows it (has dequeued a request of it)
+                known = min(deqs.get((ukey, child_key), []), default=None)
+                if known is None or known >= hi:
+                    break
+                lo = max(lo, known)
+                n_up = sum(1 for (t, m) in pubs_by.get(ukey, []) if lo < t < hi)
+                stats['c04_upstream_pubs_in_stall_max'] = max(stats['c04_upstream_pubs_in_stall_max'], n_up)
+                if n_up > 9 * (depth + 1):     # requests in flight on slow links add to what each relay holds; still fixed
+                    out.append(V('C04', 'unbounded_publish_upstream',
+                                 f'{ukey} ({depth} relay(s) above {pkey}) published {n_up} frames while the synchronized '
+                                 f'consumer {ckey} behind the relay(s) sent no request for {(b - a) / 1e9:.1f}s '
+                                 f'(window {(hi - a) / 1e9:.1f}s)', None, a, shape=sc['shape'], depth=depth))
+                    break
     return out
 
 
